@@ -41,6 +41,7 @@ uint64_t  g_probe[PR__COUNT];
 uint64_t  g_clock_advanced_ns = 0;
 void (*g_result_extra)(JsonOut& o) = nullptr;
 const char* (*g_crash_context)() = nullptr;
+bool (*g_abort_is_expected)() = nullptr;
 
 const char* const probe_names[PR__COUNT] = {
   "delayed_freeing_observed", "delayed_block_reinserted", "tf_collect_cas_retry", "free_mt_cas_retry",
@@ -613,6 +614,7 @@ static void crash_handler(int sig, siginfo_t* si, void* ctx) {
     snprintf(b, sizeof b, "%s at %p (%s)%s", sig == SIGSEGV ? "SIGSEGV" : "SIGBUS", si->si_addr, d, g_crash_context ? g_crash_context() : "");
     write_result_and_exit("violation", "crash", b, 0);
   }
+  if (sig == SIGABRT && g_abort_is_expected && g_abort_is_expected()) write_result_and_exit("ok", nullptr, nullptr, 0);
   snprintf(b, sizeof b, "signal %d (%s)%s last message: %.300s", sig, sig == SIGABRT ? "abort" : "fatal", g_crash_context ? g_crash_context() : "", g_last_msg);
   write_result_and_exit("violation", sig == SIGABRT ? "abort" : "crash", b, 0);
 }
